@@ -11,7 +11,7 @@ use std::collections::{BTreeMap, VecDeque};
 const TARGETS: [&str; 6] = ["m", "e", "L", "sub/e", "z", "nodir/m"]; // missing, existing shorter, existing longer, in a subdirectory, existing EMPTY, missing in a missing directory
 
 fn optsets() -> Vec<Vec<(String, String)>> {
-    vec![vec![], vec![("blksize".into(), "8".into())], vec![("tsize".into(), "0".into()), ("windowsize".into(), "2".into())]]
+    vec![vec![], vec![("blksize".into(), "8".into())], vec![("tsize".into(), "0".into()), ("windowsize".into(), "2".into())], vec![("timeout".into(), "0".into())]]
 }
 
 #[derive(Clone, Debug)]
@@ -25,7 +25,7 @@ fn actions() -> Vec<Action> {
     let mut v = vec![];
     for write in [false, true] {
         for target in 0..TARGETS.len() {
-            for optset in 0..3 {
+            for optset in 0..optsets().len() {
                 v.push(Action { write, target, optset });
             }
         }
@@ -78,6 +78,7 @@ fn apply(srv: &Srv, cfg: &SrvCfg, before: &Tree, a: &Action, depth: usize, aidx:
     quiesce();
     let name = TARGETS[a.target];
     let opts = &optsets()[a.optset];
+    let invalid_opts = a.optset == 3;
     let rel_send = &srv.send_dir[srv.root.len()..];
     let rel_recv = &srv.recv_dir[srv.root.len()..];
     let mut viol: Vec<(String, String)> = vec![];
@@ -98,6 +99,10 @@ fn apply(srv: &Srv, cfg: &SrvCfg, before: &Tree, a: &Action, depth: usize, aidx:
                     viol.push(("missing-not-error1".into(), format!("{desc}: missing file must be refused with ERROR 1, got first reply {} error {:?}", r.first, r.error)));
                 }
                 refusal_checks(&mut viol, &desc, &r.sources, listen_port);
+            }
+            Some(_) if invalid_opts => {
+                // a value the server cannot honour: whether and how it answers is C09's business; here only "a read
+                // changes nothing" (below) applies
             }
             Some(want) => {
                 transferred = true;
@@ -138,6 +143,13 @@ fn apply(srv: &Srv, cfg: &SrvCfg, before: &Tree, a: &Action, depth: usize, aidx:
                 viol.push(("exists-changed-disk".into(), format!("{desc}: refused write changed the tree: {:?}", d)));
             }
             refusal_checks(&mut viol, &desc, &r.sources, listen_port);
+        } else if invalid_opts {
+            // not one of the three refusal cases and the request carries a value the server cannot honour: acceptance is
+            // not demanded; only the target itself may change
+            let others: Vec<&String> = d.iter().filter(|x| !x.ends_with(&format!(" {key}"))).collect();
+            if !others.is_empty() {
+                viol.push(("write-collateral".into(), format!("{desc}: the request changed other entries: {:?}", others)));
+            }
         } else if name.starts_with("nodir/") {
             // the target's directory does not exist: the statement neither demands acceptance nor a particular refusal; only
             // "nothing else changes" is checked
@@ -284,13 +296,14 @@ pub fn configs() -> Vec<SrvCfg> {
         for overwrite in [false, true] {
             for keep in [false, true] {
                 for single in [false, true] {
-                    for distinct in [false, true] {
+                    for (distinct, rd_only) in [(false, false), (true, false), (true, true)] {
                         let mut s = SrvCfg::basic();
                         s.read_only = read_only;
                         s.overwrite = overwrite;
                         s.keep = keep;
                         s.single = single;
                         s.distinct = distinct;
+                        s.rd_only = rd_only;
                         v.push(s);
                     }
                 }
@@ -318,7 +331,7 @@ pub fn check(tier: Tier) -> Outcome {
     let res = run_cells("c06", cells, &crate::pool_opts(tier));
     let mut out = Outcome::new("C06", "model_checking");
     out.absorb(res, n);
-    out.rule = format!("explicit-state breadth-first search over file-tree states (state = sorted (path, bytes) snapshot, deduplicated by hash) from the initial tree {{e 10 B, L 100 B, sub/e}}; transitions = 30 request actions ({{RRQ,WRQ}} x {{missing, existing shorter, existing longer, in subdirectory, existing empty}} x {{no options, blksize 8, tsize+windowsize 2}}; uploads carry a 40-byte payload unique per (depth, action)) carried to their end against the real Server; depth <= {depth}; 32 configurations, each explored once with a fresh client socket per request and once with ALL requests from one client endpoint ({{read-only}} x {{overwrite}} x {{clean,keep}} x {{single,multi}} x {{shared,distinct dirs}}). Every transition is judged by a reference policy function (ERROR 2 / 6 / 1, refusal from the listening port, no transfer thread, disk unchanged; accepted uploads replace the content entirely). A tree reached a second time by another path is probed and compared with its first visit (hidden-state guard). non-trivial = transitions that transferred a file.");
+    out.rule = format!("explicit-state breadth-first search over file-tree states (state = sorted (path, bytes) snapshot, deduplicated by hash) from the initial tree {{e 10 B, L 100 B, sub/e}}; transitions = 48 request actions ({{RRQ,WRQ}} x {{missing, existing shorter, existing longer, in subdirectory, existing empty, missing in a missing directory}} x {{no options, blksize 8, tsize+windowsize 2, timeout 0 (a value the server cannot honour: the three refusals are still due)}}; uploads carry a 40-byte payload unique per (depth, action)) carried to their end against the real Server; depth <= {depth}; 48 configurations, each explored once with a fresh client socket per request and once with ALL requests from one client endpoint ({{read-only}} x {{overwrite}} x {{clean,keep}} x {{single,multi}} x {{shared dir, -d/-sd/-rd all given, -d + -rd with the send directory by fallback}}). Every transition is judged by a reference policy function (ERROR 2 / 6 / 1, refusal from the listening port, no transfer thread, disk unchanged; accepted uploads replace the content entirely). A tree reached a second time by another path is probed and compared with its first visit (hidden-state guard). non-trivial = transitions that transferred a file.");
     out.assumptions = vec!["the server's own worker threads are not scheduled by the harness; the driver keeps one request in flight and waits for quiescence".into()];
     out
 }
